@@ -29,6 +29,11 @@ type Case struct {
 	T    []int  `json:"t"` // nil = no ties
 	Grid bool   `json:"grid"`
 	Us   []ev.F `json:"us,omitempty"`
+	// Before lists other tie vectors ("siblings" of T: the same digits grouped differently, the
+	// same counts in another order, the same sum and length) whose distributions - with the same
+	// N1 - are evaluated at the same points first, results ignored: whatever they leave behind
+	// (a cache keyed by too little) must not change the answers for T.
+	Before [][]int `json:"before,omitempty"`
 }
 
 const tol = 1e-10
@@ -47,6 +52,29 @@ var checkUDist = ev.Register("udist", func(c *Case) ev.Outcome {
 		}
 		if s != c.N1+c.N2 || len(c.T) < 2 {
 			return ev.Fail("harness error: tie vector")
+		}
+	}
+	for _, b := range c.Before {
+		sum := 0
+		for _, t := range b {
+			if t < 1 {
+				return ev.Fail("harness error: sibling tie vector")
+			}
+			sum += t
+		}
+		if sum <= c.N1 || len(b) < 2 {
+			return ev.Fail("harness error: sibling tie vector")
+		}
+		sib := stats.UDist{N1: c.N1, N2: sum - c.N1, T: append([]int(nil), b...)}
+		for _, uf := range c.Us {
+			sib.CDF(float64(uf))
+			sib.PMF(float64(uf))
+		}
+		if c.Grid {
+			for w := 0; w <= 2*c.N1*c.N2; w++ {
+				sib.CDF(float64(w) / 2)
+				sib.PMF(float64(w) / 2)
+			}
 		}
 	}
 	var T []int
@@ -340,9 +368,105 @@ func drawCase(t *rapid.T) *Case {
 	return c
 }
 
+// siblings returns tie vectors that a careless cache key would confuse with T.
+func siblings(t *rapid.T, T []int, n1 int) [][]int {
+	var out [][]int
+	ok := func(b []int) bool {
+		s := 0
+		for _, x := range b {
+			if x < 1 {
+				return false
+			}
+			s += x
+		}
+		return len(b) >= 2 && s > n1 && s-n1 <= 25 && n1 <= 25 && fmt.Sprint(b) != fmt.Sprint(T)
+	}
+	// the same decimal digits grouped differently: [1 12] <-> [11 2] <-> [1 1 2]
+	digits := ""
+	for _, x := range T {
+		digits += fmt.Sprint(x)
+	}
+	for try := 0; try < 3; try++ {
+		var b []int
+		for i := 0; i < len(digits); {
+			l := 1
+			if i+1 < len(digits) && digits[i] != '0' && rapid.Bool().Draw(t, "twoDigits") {
+				l = 2
+			}
+			v := 0
+			fmt.Sscan(digits[i:i+l], &v)
+			b = append(b, v)
+			i += l
+		}
+		if ok(b) {
+			out = append(out, b)
+			break
+		}
+	}
+	// the same counts in another order
+	rev := make([]int, len(T))
+	for i, x := range T {
+		rev[len(T)-1-i] = x
+	}
+	if ok(rev) {
+		out = append(out, rev)
+	}
+	rot := append(append([]int(nil), T[1:]...), T[0])
+	if ok(rot) {
+		out = append(out, rot)
+	}
+	// the same sum and length, one unit moved
+	if len(T) >= 2 {
+		mv := append([]int(nil), T...)
+		i := rapid.IntRange(0, len(T)-1).Draw(t, "moveFrom")
+		j := (i + 1 + rapid.IntRange(0, len(T)-2).Draw(t, "moveTo")) % len(T)
+		mv[i]--
+		mv[j]++
+		if ok(mv) {
+			out = append(out, mv)
+		}
+	}
+	return out
+}
+
 func TestRandom(t *testing.T) {
 	ev.Rule(rule)
 	ev.Rapid(t, "c02-random", 1500, 16000, func(rt *rapid.T) {
-		checkUDist.Run(rt, drawCase(rt))
+		c := drawCase(rt)
+		if c.T != nil && c.N1 <= 25 && c.N2 <= 25 && rapid.Bool().Draw(rt, "withSiblings") {
+			c.Before = siblings(rt, c.T, c.N1)
+		}
+		checkUDist.Run(rt, c)
+	})
+}
+
+// TestSiblingVectors: tie vectors with a two-digit count (where concatenated keys collide),
+// each evaluated after its siblings.
+func TestSiblingVectors(t *testing.T) {
+	ev.Rule(rule)
+	ev.Rapid(t, "c02-siblings", 600, 8000, func(rt *rapid.T) {
+		n1 := rapid.IntRange(1, 8).Draw(rt, "n1")
+		big := rapid.IntRange(10, 24).Draw(rt, "bigCount")
+		T := []int{big}
+		for k := rapid.IntRange(1, 3).Draw(rt, "others"); k > 0; k-- {
+			T = append(T, rapid.IntRange(1, 4).Draw(rt, "small"))
+		}
+		if rapid.Bool().Draw(rt, "bigLast") {
+			T[0], T[len(T)-1] = T[len(T)-1], T[0]
+		}
+		sum := 0
+		for _, x := range T {
+			sum += x
+		}
+		if sum-n1 > 25 || sum-n1 < 1 {
+			rt.Skip("sizes")
+		}
+		c := &Case{N1: n1, N2: sum - n1, T: T}
+		nn := c.N1 * c.N2
+		for i := 0; i < 6; i++ {
+			c.Us = append(c.Us, ev.F(float64(rapid.IntRange(0, 2*nn).Draw(rt, "w"))/2))
+		}
+		c.Before = siblings(rt, T, n1)
+		checkUDist.Run(rt, c)
 	})
 }
